@@ -203,6 +203,7 @@ type Trace struct {
 	StressReg   *StressRegResult `json:"stress_reg,omitempty"`
 	Reg         []*RegObs     `json:"reg,omitempty"`
 	Deadlock    string        `json:"deadlock,omitempty"` // bubble deadlock panic text on exit
+	Misuse      []string      `json:"misuse,omitempty"` // concurrent-use violations the library committed against carrier streams
 	Aborted     string        `json:"aborted,omitempty"`
 	AllocBytes  uint64        `json:"alloc_bytes,omitempty"` // heap bytes allocated by the whole process while the case ran
 }
